@@ -19,6 +19,7 @@ structure XS where
   stored : List Nat := []
   impl : Option (Nat × Nat × Nat) := none
   gauges : List (Int × Int × Option Int × Int) := []
+  gaugePos : List Nat := []          -- number of trace events before each gauge reading (same order as `gauges`)
   gaugeMissing : Bool := false
   skipped : Bool := false
   bad : Option String := none
@@ -93,7 +94,7 @@ def expHandler : Handler XS where
     | ["tr", "gauge", "missing"] => { s with gaugeMissing := true }
     | "tr" :: "gauge" :: rest =>
       match kvInt rest "size", kvInt rest "cap", kv rest "expsize", kvInt rest "expcap" with
-      | some sz, some cp, some es, some ec => { s with gauges := (sz, cp, es.toInt?, ec) :: s.gauges }
+      | some sz, some cp, some es, some ec => { s with gauges := (sz, cp, es.toInt?, ec) :: s.gauges, gaugePos := s.tevs.length :: s.gaugePos }
       | _, _, _, _ => { s with bad := some "gauge" }
     | "tr" :: "builderr" :: _ => { s with skipped := true }
     | "tr" :: _ => s
@@ -117,16 +118,23 @@ def expHandler : Handler XS where
       let stored := if s.persistent then s.stored.length else 0
       let dblKept := if s.persistent then (s.stored.filter attempted).length else 0
       let dblWfr := if s.direct then 0 else ((t.flatMap (fun e => match e with | .rej is => is | _ => [])).filter attempted).length
-      let pBal := match s.impl with
-        | none => "prop balance=FAIL sig=C19/exporter/no-counters"
+      -- the LITERAL clause: sent + send-failed + enqueue-failed = given − stored(persistent).  Three structurally identified
+      -- deviations of the code are known; each gets its own line and signature, anything else is an imbalance:
+      --  late  = items whose Send was ACCEPTED (nil) after the shutdown request by a memory queue and that were never exported
+      --  kept  = items counted (attempted) that are also still stored (shutdown-interrupted request of a persistent queue)
+      --  wfr   = items of a refused Send that were exported (wait_for_result: the export error comes back through Offer)
+      let pBal : List String := match s.impl with
+        | none => ["prop balance=FAIL sig=C19/exporter/no-counters"]
         | some (a, b, c) =>
           let lhs := a + b + c
-          let rhs := given - stuckLate - stored
-          if lhs = rhs then "prop balance=ok"
-          else if lhs = rhs + dblKept + dblWfr then
-            if dblKept > 0 then s!"prop balance=FAIL sig=C19/exporter/shutdown-interrupted-counted-and-still-stored sent={a} failed={b} enq={c} given={given} stored={stored} twice={dblKept}"
-            else s!"prop balance=FAIL sig=C19/exporter/wait-for-result-error-counted-send-failed-and-enqueue-failed sent={a} failed={b} enq={c} given={given} twice={dblWfr}"
-          else s!"prop balance=FAIL sig=C19/exporter/imbalance sent={a} failed={b} enq={c} given={given} stored={stored} stucklate={stuckLate}"
+          let rhs := given - stored
+          if lhs = rhs && stuckLate = 0 && dblKept = 0 && dblWfr = 0 then ["prop balance=ok"]
+          else if lhs + stuckLate = rhs + dblKept + dblWfr then
+            (if stuckLate > 0 then [s!"prop balance_late=FAIL sig=C19/exporter/accepted-after-shutdown-dropped-uncounted sent={a} failed={b} enq={c} given={given} dropped={stuckLate}"] else []) ++
+            (if dblKept > 0 then [s!"prop balance_kept=FAIL sig=C19/exporter/shutdown-interrupted-counted-and-still-stored sent={a} failed={b} enq={c} given={given} stored={stored} twice={dblKept}"] else []) ++
+            (if dblWfr > 0 then [s!"prop balance_wfr=FAIL sig=C19/exporter/wait-for-result-error-counted-send-failed-and-enqueue-failed sent={a} failed={b} enq={c} given={given} twice={dblWfr}"] else []) ++
+            (if stuckLate = 0 && dblKept = 0 && dblWfr = 0 then ["prop balance=ok"] else [])
+          else [s!"prop balance=FAIL sig=C19/exporter/imbalance sent={a} failed={b} enq={c} given={given} stored={stored} late={stuckLate} kept={dblKept} wfr={dblWfr}"]
       let badGauge := s.gauges.find? (fun g => g.2.1 != g.2.2.2 || (match g.2.2.1 with | some e => g.1 != e | none => false))
       let pGauge := match s.gaugeMissing, badGauge with
         | true, _ => "prop gauges=FAIL sig=C19/exporter/gauge-missing"
@@ -154,40 +162,50 @@ def expHandler : Handler XS where
           let refused := ((t.flatMap (fun e => match e with | .rej is => if is.any attempted then [] else is | _ => [])).length)
           let ms := OtelVerif.C19.sentOf rs.s
           let mf := OtelVerif.C19.failedOf rs.s
-          let me := refused + OtelVerif.C19.enqFailedWfrOf rs.s
-          if a = ms && b = mf && c = me then "prop lts=ok"
+          let me := OtelVerif.C19.enqFailedOf { s := rs.s, refused := refused }
+          -- what the MODEL says is still stored (never-dispatched queue remainder + kept flights) must be in the decoded storage
+          let modelStored := (OtelVerif.C03.queueItems rs.s.queue) ++
+            (rs.s.flights.filter (fun fl => fl.st == .done && fl.kept)).flatMap (·.batch)
+          let missing := if s.persistent then modelStored.filter (fun x => !s.stored.contains x) else []
+          if !missing.isEmpty then s!"prop lts=FAIL sig=C19/exporter/lts-stored-item-not-in-storage items={missing} storedOf={OtelVerif.C19.storedOf rs.s}"
+          else if s.persistent && OtelVerif.C19.storedOf rs.s != modelStored.length then "prop lts=FAIL sig=C19/exporter/storedOf-inconsistent"
+          else if a = ms && b = mf && c = me then "prop lts=ok"
           else s!"prop lts=FAIL sig=C19/exporter/counters-differ-from-lts-state impl={a}/{b}/{c} lts={ms}/{mf}/{me}"
       -- size gauge against the LTS state at the instant it was read (a quiescent point just before the shutdown request):
       -- the model's `qsize` (released by `completedBy`, i.e. when every piece of a request has ended its flight) plus the
       -- requests that sit in the real queue but that the lazy replay has not enqueued yet
       let pGaugeLts :=
         if s.persistent || (batching && !s.wrap) || s.direct then "prop gaugelts=skipped" else
-        match s.gauges.head? with
-        | some (sz, _, some _, _) =>
-          let tr := s.tevs.reverse
-          let pre := tr.takeWhile (fun e => match e with | .shutreq => false | _ => true)
-          let rc : OtelVerif.C03.Replay.RCfg :=
-            { cfg := { persistent := s.persistent, batching := batching, retry := s.retry, wfr := s.wfr, itemsSized := s.itemsSized }
-              nCons := if batching then 1 else s.consumers
-              workers := if batching then 1 else 0
-              timer := batching
-              stored := s.stored
-              sends := tr.filterMap (fun e => match e with | .ss rid ids => some (rid, ids) | _ => none) }
-          -- look-ahead over the whole trace, events only up to the request
-          let rs := OtelVerif.C03.Replay.goUntilShutreq rc { s := OtelVerif.C03.init rc.cfg rc.nCons rc.workers rc.timer } tr
+        let tr := s.tevs.reverse
+        let rc : OtelVerif.C03.Replay.RCfg :=
+          { cfg := { persistent := s.persistent, batching := batching, retry := s.retry, wfr := s.wfr, itemsSized := s.itemsSized }
+            nCons := if batching then 1 else s.consumers
+            workers := if batching then 1 else 0
+            timer := batching
+            stored := s.stored
+            sends := tr.filterMap (fun e => match e with | .ss rid ids => some (rid, ids) | _ => none) }
+        -- every comparable reading (ledger known): replay the events before it, look-ahead over the whole trace
+        let readings := (s.gauges.zip s.gaugePos).reverse.filter (fun g => g.1.2.2.1.isSome)
+        let results := readings.map (fun g =>
+          let sz := g.1.1
+          let n := g.2
+          let rs := OtelVerif.C03.Replay.goN rc n { s := OtelVerif.C03.init rc.cfg rc.nCons rc.workers rc.timer } tr
           match rs.err with
-          | some (k, d) => s!"prop gaugelts=FAIL sig=C19/exporter/trace-not-a-run-of-the-model/{k} {d.replace " " "_"}"
+          | some (k, d) => some s!"prop gaugelts=FAIL sig=C19/exporter/trace-not-a-run-of-the-model/{k} {d.replace " " "_"}"
           | none =>
+            let pre := tr.take n
             let accepted := pre.filterMap (fun e => match e with | .acc rid ids => some (rid, ids) | _ => none)
             let started := pre.filterMap (fun e => match e with | .ss rid ids => some (rid, ids) | _ => none)
             let rejected := pre.filterMap (fun e => match e with | .rej rid _ => some rid | _ => none)
             let inQueue := if s.wfr then started.filter (fun p => !rejected.contains p.1 && !(accepted.map (·.1)).contains p.1) else accepted
             let waiting := inQueue.filter (fun p => !rs.offered.contains p.1)
             let want : Int := rs.s.qsize + ((waiting.map (fun p => OtelVerif.C03.reqSize rc.cfg p.2)).sum : Nat)
-            if sz = want then "prop gaugelts=ok"
-            else s!"prop gaugelts=FAIL sig=C19/exporter/size-gauge-differs-from-lts-qsize got={sz} lts={rs.s.qsize} waiting={waiting.length} want={want}"
-        | _ => "prop gaugelts=skipped"
-      [obs, pBal, pGauge, pLts, pGaugeLts]
+            if sz = want then none
+            else some s!"prop gaugelts=FAIL sig=C19/exporter/size-gauge-differs-from-lts-qsize at={n} got={sz} lts={rs.s.qsize} waiting={waiting.length} want={want}")
+        match results.findSome? id with
+        | some f => f
+        | none => if readings.isEmpty then "prop gaugelts=skipped" else s!"prop gaugelts=ok readings={readings.length}"
+      [obs] ++ pBal ++ [pGauge, pLts, pGaugeLts]
 
 
 end OtelVerif.Drivers.C19Exp
